@@ -273,8 +273,14 @@ def wide_objects(Pm):
         'pair_d': lambda: _with_deriv(Pm.Pair(np.arange(6.).reshape(3, 2), A([False, True, False])), Pm),
         'scalar0_d': lambda: _with_deriv(Pm.Scalar(2.5), Pm),
         'matrix': lambda: Pm.Matrix(np.arange(8.).reshape(2, 2, 2) + 1., A([False, True])),
+        # objects that are the result of shrink(): their cache holds the un-shrunk original (seeded change C18-B)
+        'shrunk': lambda: S([1., 2., 0., 4.], [False, True, False, False]).shrink(A(SHRUNK_AM)),
+        'shrunk_d': lambda: _with_deriv(S([1., 2., 0., 4.], [False, False, False, True]), Pm).shrink(A(SHRUNK_AM)),
     }
     return objs
+
+
+SHRUNK_AM = [True, False, True, True]
 
 
 def _with_deriv(x, Pm):
@@ -289,6 +295,11 @@ def wide_alphabet(name, Pm):
          ('q', 'shrink', lambda x: x.shrink(x.antimask) if x.shape else x),
          ('q', 'count', lambda x: int(np.sum(np.broadcast_to(x.mask, x.shape)))),
          ('q', 'str', lambda x: str(x))]
+    if name.startswith('shrunk'):
+        # the property asks that the un-shrunk original reflect current values, mask and derivatives; whether it
+        # is the (writable) source object itself or a rebuilt read-only one is not part of that: compare a copy
+        q += [('q', 'unshrink', lambda x: x.unshrink(A(SHRUNK_AM)).copy()),
+              ('q', 'unshrink_wod', lambda x: x.wod.unshrink(A(SHRUNK_AM)).copy())]
     def setitem(idx, val):
         def f(x):
             x[idx] = val
